@@ -558,6 +558,12 @@ class List(list, base.Symbolic, pg_typing.CustomTyping):
         stop = start
       slice_size = math.ceil((stop - start) * 1.0 / step)
       if not extended:
+        if (self.max_size is not None and
+            len(self) - slice_size + len(replacements) > self.max_size):
+          raise ValueError(
+              f'Cannot assign slice: the number of elements '
+              f'({len(self) - slice_size + len(replacements)}) exceeds max '
+              f'size ({self.max_size}).')
         if slice_size < len(replacements):
           for i in range(slice_size, len(replacements)):
             replacements[i] = Insertion(replacements[i])
